@@ -203,6 +203,43 @@ def cut_work(arg):
     return outcome, viols
 
 
+def emission_work(arg):
+    """'each side emits a datagram at least once per keep-alive interval plus one send tick' when the acks stay away for a
+    long time although nobody is dead: a peer with a much longer keep-alive interval, or a one-way outage shorter than
+    the 5 s DROPPED rule, with a long message timeout (many un-acked datagrams pile up)"""
+    c_ka, c_mt, s_ka, s_tconn, frame, outage = arg
+    viols = {}
+    wit = {"part": "emission", "arg": list(arg)}
+
+    def flag(oracle, sig, msg):
+        viols.setdefault((oracle, sig), [0, wit, msg])[0] += 1
+    w = World(dt=frame, autoconnect=False, start_time=1024.0, server_cfg={"setKeepAliveInterval": s_ka, "setConnectionTimeout": s_tconn, "setMessageTimeout": c_mt})
+    try:
+        def pre(cl):
+            cl.setKeepAliveInterval(c_ka)
+            cl.setMessageTimeout(c_mt)
+        ce = w.client_connect(0, before_connect=pre)
+        w.run_until_connected(limit=int(3.0 / frame))
+        w.run(int(0.3 / frame))
+        t0 = w.tickno
+        if outage:
+            w.start_blackout(outage[0], int(outage[1] / frame))
+        w.run(int((outage[1] if outage else 4.0) / frame) + int(1.0 / frame))
+        g = gaps(w, t0)
+        for side, ka in (("c", c_ka), ("s", s_ka)):
+            bound = ka + max(frame, send_tick(frame)) + frame + EPS
+            if g[side] and max(g[side]) > bound:
+                flag("keep-alive", "an endpoint of a live link stays silent for longer than its keep-alive interval plus a send tick while many of its datagrams are un-acked",
+                     "%s: longest gap %.4f s, keep-alive %.2f (message timeout %.1f, peer keep-alive %.2f, outage %r)" % (
+                         "client" if side == "c" else "server", max(g[side]), ka, c_mt, s_ka if side == "c" else c_ka, outage))
+        if not ce.client.connected() or w.clients[0].addr not in w.ctxt.connections:
+            flag("idle", "a live link (outage shorter than every timeout) goes down", "client %s, server side %s" % (
+                w.clients[0].conn.status if w.clients[0].conn else None, "present" if w.clients[0].addr in w.ctxt.connections else "gone"))
+    finally:
+        w.close()
+    return tuple(map(str, arg)), viols
+
+
 def connect_work(arg):
     timeout, with_cb, frame, set_when = arg
     viols = {}
@@ -521,6 +558,10 @@ def run(tier, seed):
     res = core.pmap("checks.c12", "client_setter_work", cs_jobs)
     for r in res:
         fold(r[1])
+    em_jobs = [(0.05, 4.0, 3.0, 4.0, 1.0 / 64, None), (0.1, 10.0, 0.1, 30.0, 1.0 / 64, ("s2c", 4.5)), (0.1, 10.0, 0.1, 30.0, 1.0 / 50, ("c2s", 4.5)),
+               (0.05, 6.0, 0.05, 30.0, 1.0 / 64, ("s2c", 3.0)), (2.0, 1.0, 0.05, 30.0, 1.0 / 64, None)]
+    for r in core.pmap("checks.c12", "emission_work", em_jobs):
+        fold(r[1])
     kc_jobs = [(ka0, ka1, fr, idle) for ka0, ka1 in ((3.0, 0.1), (1.0, 0.25), (0.1, 1.0), (0.5, 0.05)) for fr in (1.0 / 64, 1.0 / 50) for idle in (0.3, 1.3)]
     for r in core.pmap("checks.c12", "ka_change_work", kc_jobs):
         fold(r[1])
@@ -534,12 +575,12 @@ def run(tier, seed):
         fold(r[1])
     for (oracle, sig), (cnt, wit, msg) in sorted(acc.items()):
         rep.add_violation(core.Violation(oracle, sig, wit, "%s [%d cases]" % (msg[:400], cnt)))
-    n_exec = len(idle_jobs) + st.executions + len(cut_jobs) + len(con_jobs) + len(cs_jobs) + len(ss_jobs) + len(kc_jobs)
+    n_exec = len(idle_jobs) + st.executions + len(cut_jobs) + len(con_jobs) + len(cs_jobs) + len(ss_jobs) + len(kc_jobs) + len(em_jobs)
     rep.coverage = {
         "states": idle_states + st.points, "transitions": idle_states + st.steps, "traces_validated_against_impl": n_exec,
         "idle_configurations": len(idle_jobs), "idle_closed_cycles": len(closed), "idle_cycle_rows": closed[:40], "idle_horizon_only": open_rows,
         "jitter_executions": st.executions, "cut_cases": len(cut_jobs), "cut_outcomes": len(cut_out), "connect_cases": len(con_jobs),
-        "client_setter_cases": len(cs_jobs), "server_setter_cases": len(ss_jobs), "keep_alive_change_cases": len(kc_jobs),
+        "client_setter_cases": len(cs_jobs), "server_setter_cases": len(ss_jobs), "keep_alive_change_cases": len(kc_jobs), "emission_under_missing_acks_cases": len(em_jobs),
         "evaluations": n_exec, "distinct_nontrivial": len(closed) + len(cut_out) + len(st.outcomes) + len(cs_jobs),
         "rule": "idle: canonical state = ages + sequence numbers relative to the peer's window, per tick; a repeated state closes the graph (dyadic frames), otherwise a horizon is reported; "
                 "jitter: all 2^10 sequences of 1x/2x frames; cut: every tick phase of one keep-alive period x {both, c2s, s2c}; setters: every subset x order x before / during-the-handshake / after split",
@@ -557,6 +598,9 @@ def replay(witness):
     if part == "idle":
         r = idle_work((witness["keep_alive"], witness["connection_timeout"], witness["frame"], 30.0, witness.get("latency_ticks", 1)))
         v = r[2]
+    elif part == "emission":
+        a = witness["arg"]
+        v = emission_work((a[0], a[1], a[2], a[3], a[4], tuple(a[5]) if a[5] else None))[1]
     elif part == "ka-change":
         v = ka_change_work(tuple(witness["arg"]))[1]
     elif part == "cut":
